@@ -144,12 +144,17 @@ func (bat *batch2) Exec() ([]interface{}, error) {
 // 这里的关键点是不再自己抢连接和并发写 socket，而是把“如何发送/如何收包”
 // 封装成请求交给节点级 actor 顺序执行。
 func (bat *batch2) Dispatch() error {
-	if bat == nil || bat.batches == nil || len(bat.batches) == 0 {
+	if bat == nil {
 		return nil
 	}
 
+	// an error of Put is reported even if no command could be placed, like Batch.Exec does
 	if bat.err != nil {
 		return bat.err
+	}
+
+	if bat.batches == nil || len(bat.batches) == 0 {
+		return nil
 	}
 
 	for i := range bat.batches {
